@@ -282,6 +282,14 @@ def _plain(x, depth=0):
 
 def _child(item, conn):
     try:
+        # a work item that runs changed repository code must not be able to exhaust the machine (a creation path that
+        # loops on a substituted randomness source once grew to 15 GB): address space of the item's process is capped
+        import resource
+        cap = int(os.environ.get("VERIF_ITEM_MEM_GB", "8")) * 2 ** 30
+        resource.setrlimit(resource.RLIMIT_AS, (cap, cap))
+    except Exception:
+        pass
+    try:
         conn.send(_plain(run_item(item)))
     except BaseException as ex:          # run_item reports its own errors; this is the last resort
         try:
